@@ -20,7 +20,7 @@ func init() {
 			"(P01-norecord) a record is returned only when that list is empty, and both engines return records only when no block had errors; (P01-placeholder) in an open range any placeholder character other than '?' is rejected on every path; (P01-guards) the headline guard for left-over text rejects on any remaining character; (P01-kinds) every error kind defined for the parser is raised somewhere in it; " +
 			"(P01-lex) the date, time and duration patterns are language-equivalent to the specification's lexical shapes and include all spec-valid literals, their constructors fail on every path where the pattern does not match, and the summary-line patterns equal 'starts with tab or Zs' / 'only tab or Zs'. " +
 			"Not covered: block splitting, indentation uniformity, section order and the values extracted (12-hour conversion, shifts, 24:00 folding, file order of entries) — these need an oracle evaluated on inputs.",
-		rules: []ruleFn{ruleP01ErrChecked, ruleP01ErrFlow, ruleP01NoRecord, ruleP01Placeholder, ruleP01Guards, ruleP01Kinds, ruleP01Lex, ruleP01GroupGuards, ruleP01SummaryEmpty, ruleP08LoopExit},
+		rules: []ruleFn{ruleP01ErrChecked, ruleP01ErrFlow, ruleP01NoRecord, ruleP01Placeholder, ruleP01Guards, ruleP01Kinds, ruleP01Lex, ruleP01GroupGuards, ruleP01SummaryEmpty, ruleP01SummaryValidated, ruleP01Delims, ruleP08LoopExit},
 		trusted: []string{"reference languages transcribed from Specification.md: date \\d{4}[-/]\\d{2}[-/]\\d{2}; time <?\\d{1,2}:\\d{2}(am|pm)?>?; duration [-+]?(\\d+h)?(\\d+m)?; blank = tab or Unicode Zs", "Go's regexp package implements the regexp/syntax semantics the comparison uses"},
 	})
 	register(&propSpec{
